@@ -230,6 +230,34 @@ void caseApply(Ctx &c, Rng &g) {
         res.getSupport().getEndIndex() != wa.end)
       c.violation("C05", std::string("window/") + E::text,
                   desc + " -> " + splineStr(res));
+    // A long-lived operator object: the expression built in an earlier case is
+    // kept alive together with its operand and applied again now, after the
+    // grids and splines of many other cases have come and gone.
+    {
+      using OpT = std::decay_t<decltype(E::template make<T>(*sc.env))>;
+      struct Kept {
+        OpT op;
+        Spline<T, o> operand;
+        Den expected;
+        AbsM scale;
+        std::string what;
+      };
+      static std::optional<Kept> kept;
+      if (kept) {
+        auto again = kept->op * kept->operand;
+        Verdict v2 = agreeSpline(again, kept->expected,
+                                 ST<T>::exact ? nullptr : &kept->scale);
+        if (!v2.ok)
+          c.violation("C05", std::string("long-lived-operator/") + E::text,
+                      "an operator object built in an earlier case gives a "
+                      "different result now: " + kept->what + ": " + v2.why);
+        c.count("apply:long-lived-operator");
+      }
+      if (c.caseId % 3 == 0 || !kept) {
+        kept.reset();
+        kept.emplace(Kept{E::template make<T>(*sc.env), a, ex, sa, desc});
+      }
+    }
     if (!model::dzerop(ex)) {
       Hasher h;
       h.s(desc);
